@@ -169,6 +169,7 @@ def make_groups(r: random.Random, qa: list, sk0: dict) -> list[list[dict]]:
     groups.append(
         [
             upd('aggregator2', base_block(duals[0], rw.enc_attr(0xC0, 7, struct.pack('!H', 65001) + rw.ipbytes('192.0.2.200')))),
+            upd('aggregator2', base_block(duals[1], rw.enc_attr(0xC0, 7, struct.pack('!H', 65001) + rw.ipbytes('192.0.2.200')) + med)),  # same TLV, other block
             upd('aggregator4', base_block(duals[0], rw.enc_attr(0xC0, 7, struct.pack('!L', 65001) + rw.ipbytes('192.0.2.200')))),
             upd('empty-aspath', base_block(b'', rw.enc_attr(0x40, 5, struct.pack('!L', 100)))),
         ]
@@ -571,6 +572,7 @@ def child_sequence(steps: list, sessions: dict, caching: bool, monitor: str, ful
     kept: list = []
     deeps: list = []
     owner: dict = {}
+    attr_owner: dict = {}
     hold: list = []
     others: list = []
     mutated: list = []
@@ -610,6 +612,10 @@ def child_sequence(steps: list, sessions: dict, caching: bool, monitor: str, ful
             cands = {j - 1}
             if calls and calls[0][1] is not None:
                 cands.add(owner.get(id(calls[0][1]), -1))
+            if msg is not None and step['t'] == 2 and not getattr(msg, 'IS_EOR', False):
+                # ... and the earlier results which hold the very same attribute OBJECTS (a per attribute cache)
+                for attr in msg.data.attributes.values():
+                    cands.add(attr_owner.setdefault(id(attr), j))
             cands.update(others[-24:])
             if msg is not None and step['t'] != 2:
                 others.append(j)
@@ -735,10 +741,10 @@ def plan(tier, seed):
     out = []
     if tier == 'quick':
         for i in range(16):
-            out.append({'shard': i, 'sessions': 2 + i % 2, 'bodies': 6 if i % 2 == 0 else 4, 'per_group': 2, 'sequences': 1, 'length': 300, 'window': 1, 'shrinks': 4})
+            out.append({'shard': i, 'sessions': 2 + i % 2, 'bodies': 6 if i % 2 == 0 else 4, 'per_group': 2, 'sequences': 1, 'length': 300, 'window': 1, 'shrink_forks': 24})
     else:
         for i in range(64):
-            out.append({'shard': i, 'sessions': 2 + i % 3, 'bodies': 36 // (2 + i % 3), 'per_group': 3, 'sequences': 3, 'length': 500, 'window': 1, 'shrinks': 6, 'hashseed': i % 2})
+            out.append({'shard': i, 'sessions': 2 + i % 3, 'bodies': 36 // (2 + i % 3), 'per_group': 3, 'sequences': 3, 'length': 500, 'window': 1, 'shrink_forks': 60, 'hashseed': i % 2})
     return out
 
 
@@ -894,15 +900,17 @@ def run_shard(desc):
             # ---- shrink: the shortest sub-sequence ending with message i on which the disagreement persists
             found = None
             probe_key = (tname, pair_label(prev, st['k']), state, what)
-            if probe_key not in shrunk and shrinks[0] < desc.get('shrinks', 2):
+            if probe_key not in shrunk and shrinks[0] < desc.get('shrink_forks', 24):
+                # the budget is in forks: a disagreement caused by the message that stored the cached set costs one
                 shrunk[probe_key] = True
-                shrinks[0] += 1
-                found = shrink(F, steps, i, pi, sessions, caching, fr['d'], what)
+                before = F.forks
+                found = shrink(F, steps, i, pi, sessions, caching, fr['d'], what, budget=min(14, desc.get('shrink_forks', 24) - shrinks[0]))
+                shrinks[0] += F.forks - before
             if found is not None:
                 sub, last = found
                 w_prev, w_state, seqparts, reproduced = sub[-2]['k'], last['cache'], last['parts'], True
             else:
-                sub = [steps[pi], steps[i]]
+                sub = [steps[pi], steps[i]] if state == 'hit' else steps[max(0, i - 8) : i + 1]  # not replayed: the recent past
                 w_prev, w_state, seqparts, reproduced = prev, state, None, False
             fparts = fr.get('parts') or {}
             so, fo = sr['out'], fr['out']
